@@ -107,8 +107,8 @@ def foreign_rephase(text, idx):
 
 
 def strip_ps(text, idx):
-    """the chosen (phased) records keep their phased genotype but lose the PS value (phased by a source that writes
-    no phase set, e.g. a pedigree or population phaser)"""
+    """the chosen (phased) records keep their phased genotype but have no PS field (phased by a source that writes no
+    phase set, e.g. a pedigree or population phaser; whatshap's reader puts such calls into phase set 0)"""
     out = []
     ri = 0
     for line in text.splitlines():
@@ -120,7 +120,8 @@ def strip_ps(text, idx):
             fmt = t[8].split(":")
             d = dict(zip(fmt, t[9].split(":")))
             if "|" in d.get("GT", "") and "PS" in d:
-                d["PS"] = "."
+                fmt = [k for k in fmt if k != "PS"]
+                t[8] = ":".join(fmt)
             t[9] = ":".join(d.get(k, ".") for k in fmt)
         out.append("\t".join(t))
         ri += 1
@@ -226,9 +227,10 @@ def judge(sc):
             variants_of_history.append((keep + fixed_keep, False))
             if 1 <= r <= 2:
                 variants_of_history.append((keep + fixed_keep, True))
+                variants_of_history.append((keep + fixed_keep, "nops"))
     for keep, foreign in variants_of_history:
         if True:
-            hist = ["phase", "haplotag", f"unphase-all-but-{list(keep)}" + ("-rephased-by-another-source" if foreign is True else "-without-PS-value" if foreign else ""), "haplotagphase"]
+            hist = ["phase", "haplotag", f"unphase-all-but-{list(keep)}" + ("-rephased-by-another-source" if foreign is True else "-without-PS-field" if foreign else ""), "haplotagphase"]
             inp = os.path.join(d, "hp_in.vcf")
             if not keep:
                 try:
@@ -264,7 +266,7 @@ def judge(sc):
                 g_in, ps_in = rin["calls"][0].get("GT"), rin["calls"][0].get("PS")
                 was_phased = "|" in (g_in or "")
                 if was_phased:
-                    # a phased genotype without a PS value belongs to the implicit phase set 0 (VCF specification)
+                    # a phased genotype in a record without PS belongs to the implicit phase set 0 (as whatshap's reader has it)
                     if (g_out, ps_out if ps_out not in (None, ".", "") else "0") != (g_in, ps_in if ps_in not in (None, ".", "") else "0"):
                         sub = "uncovered" if not cov_ps[ri] else "covered"
                         v = V("phased-input-altered", f"record {ri} ({rec['pos']}) was {g_in}:{ps_in} in the input of haplotagphase and is {g_out}:{ps_out} in its output ({sub} by tagged reads)", hist)
